@@ -13,6 +13,7 @@ pub struct XRun {
     pub exit: i64,        // exit status, 1000+signal, or -1 for a hang
     pub stderr: Vec<u8>,
     pub stdout: Vec<u8>,
+    pub env_stats: Option<(usize, usize)>, // with clear_env: number of environment strings of xargs and their bytes (NAME=VALUE + terminator each)
 }
 
 pub struct XOpts<'a> {
@@ -28,6 +29,7 @@ pub struct XOpts<'a> {
     pub timeout_s: u64,
     pub no_cmd: bool,   // no command at all: xargs' own echo
     pub arg_file: bool, // the input is given with -a FILE; standard input holds something else
+    pub hooked: bool,   // run the binary built with the verification hook (event traces)
 }
 
 impl<'a> XOpts<'a> {
@@ -45,6 +47,7 @@ impl<'a> XOpts<'a> {
             timeout_s: 60,
             no_cmd: false,
             arg_file: false,
+            hooked: false,
         }
     }
 }
@@ -75,7 +78,7 @@ pub fn run_xargs(sb: &Sandbox, o: &XOpts) -> XRun {
     let _ = std::fs::remove_file(&log);
     let inp = sb.path().join("stdin.bin");
     std::fs::File::create(&inp).unwrap().write_all(o.stdin).unwrap();
-    let mut c = Command::new(bin_dir().join("xargs"));
+    let mut c = Command::new(if o.hooked { hooked_bin_dir().join("xargs") } else { bin_dir().join("xargs") });
     for a in &o.opts {
         c.arg(a);
     }
@@ -94,9 +97,11 @@ pub fn run_xargs(sb: &Sandbox, o: &XOpts) -> XRun {
     if o.clear_env {
         c.env_clear();
     }
+    let mut envlist: Vec<(String, String)> = vec![("VREC_LOG".into(), log.to_string_lossy().into_owned())];
     c.env("VREC_LOG", &log);
     if o.sum_mode {
         c.env("VREC_MODE", "sum");
+        envlist.push(("VREC_MODE".into(), "sum".into()));
     } else {
         c.env_remove("VREC_MODE");
     }
@@ -104,12 +109,16 @@ pub fn run_xargs(sb: &Sandbox, o: &XOpts) -> XRun {
         let sp = sb.path().join("script.json");
         std::fs::write(&sp, serde_json::to_string(s).unwrap()).unwrap();
         c.env("VREC_SCRIPT", &sp);
+        envlist.push(("VREC_SCRIPT".into(), sp.to_string_lossy().into_owned()));
     } else {
         c.env_remove("VREC_SCRIPT");
     }
     for (k, v) in &o.env {
         c.env(k, v);
+        envlist.retain(|(n, _)| n != k);
+        envlist.push((k.clone(), v.clone()));
     }
+    let env_stats = if o.clear_env { Some((envlist.len(), envlist.iter().map(|(k, v)| k.len() + 1 + v.len() + 1).sum::<usize>())) } else { None };
     if o.arg_file {
         let other = sb.path().join("stdin.other");
         std::fs::write(&other, b"NOT THE INPUT\n").unwrap();
@@ -135,7 +144,7 @@ pub fn run_xargs(sb: &Sandbox, o: &XOpts) -> XRun {
         Ok(ch) => ch,
         Err(e) => {
             // e.g. the environment asked for does not fit the stack limit asked for: nothing was run
-            return XRun { execs: vec![], cwds: vec![], sums: vec![], exit: -3, stderr: format!("spawn: {}", e).into_bytes(), stdout: vec![] };
+            return XRun { execs: vec![], cwds: vec![], sums: vec![], exit: -3, stderr: format!("spawn: {}", e).into_bytes(), stdout: vec![], env_stats };
         }
     };
     let t0 = std::time::Instant::now();
@@ -167,7 +176,7 @@ pub fn run_xargs(sb: &Sandbox, o: &XOpts) -> XRun {
     let (execs, cwds, sums) = read_log(&log);
     let stderr = std::fs::read(&errf).unwrap_or_default();
     let stdout = std::fs::read(&outf).unwrap_or_default();
-    XRun { execs, cwds, sums, exit, stderr, stdout }
+    XRun { execs, cwds, sums, exit, stderr, stdout, env_stats }
 }
 
 /// A panic of the code under test shows up as exit status 101 with a panic message.
